@@ -15,6 +15,25 @@ class UNode(NodeMixin):                       # user NodeMixin class (module lev
         self.parent = parent
 
 
+class FalsyNode(UNode):                       # a container-like user class that is falsy / has length 0
+    def __bool__(self):
+        return False
+
+    def __len__(self):
+        return 0
+
+
+class EqNode(UNode):                          # value equality: every two nodes compare equal
+    def __eq__(self, other):
+        return isinstance(other, EqNode)
+
+    def __ne__(self, other):
+        return not isinstance(other, EqNode)
+
+    def __hash__(self):
+        return 1
+
+
 class LNode(LightNodeMixin):                  # __slots__ class: protocols >= 2 only
     __slots__ = ["label", "extra", "name"]
 
@@ -32,6 +51,10 @@ def make(kind, label, target=None):
         return AnyNode(label=label, name="a%d" % label, data=[label, {"x": label}])
     if kind == "user":
         return UNode(label)
+    if kind == "falsy":
+        return FalsyNode(label)
+    if kind == "eq":
+        return EqNode(label)
     if kind == "light":
         return LNode(label)
     if kind == "symlink":
